@@ -97,6 +97,8 @@ func c03runP(env *hs.Env, progs map[string]*hs.Prog, stream []byte, cuts []int, 
 		conn.SendEach(stream)
 	case paused:
 		conn.SendCutPaused(stream, cuts)
+	case c03eof:
+		conn.SendCutEOF(stream, cuts)
 	default:
 		conn.SendCut(stream, cuts)
 	}
@@ -104,6 +106,9 @@ func c03runP(env *hs.Env, progs map[string]*hs.Prog, stream []byte, cuts []int, 
 	ok := conn.WaitClosed()
 	return c03norm(conn.Out()), c03trace(conn.Events()), ok
 }
+
+// c03eof: the end of the stream is reported by the very Read that delivers its last bytes.
+var c03eof bool
 
 func c03validator(ctx context.Context, database, username, password string) (context.Context, bool, error) {
 	hs.ConnOf(ctx).CB("validate", password)
@@ -504,12 +509,18 @@ func (ch c03) segmentation(c *core.Ctx, envPlain, envAuth *hs.Env, rng *core.Rng
 			sort.Ints(cuts)
 			what = "random cuts"
 		}
+		c03eof = k == 3 || k == 4
+		if c03eof {
+			what += ", the end of the stream reported together with the last bytes"
+			c.Count("segmentations_ending_with_data_and_eof_in_one_read", 1)
+		}
 		paused := k == segs-1
 		if paused {
 			what += ", the client pausing at every cut for longer than any read deadline"
 			c.Count("paused_segmentations", 1)
 		}
 		out, trace, ok := c03runP(env, s.Progs, stream, cuts, each, paused)
+		c03eof = false
 		c.Count("segmentations_compared", 1)
 		if !ok {
 			c.Violate("wedge", "connection did not end after EOF ("+what+")", shape, cs)
